@@ -288,6 +288,7 @@ theorem invL_step (l : Nat) (hl : 1 ≤ l) (s : Sess) (e : Ev) (h : InvL l s) : 
   | sendHb => exact invL_sendMsg l s _ h
   | recv k => exact invL_dataReceived l s k h
   | close => exact invL_close l s _ h
+  | sendFailed => exact h
 
 theorem invL_run (l r tl tr : Nat) (hl : 1 ≤ l) (htl : tl ≤ 1) (evs : List Ev) :
     InvL l ((startWith l r tl tr).run evs) :=
@@ -649,6 +650,7 @@ theorem invT_step (l : Nat) (hl : 1 ≤ l) (s : Sess) (e : Ev) (h : InvT l s) : 
   | sendHb => exact invT_sendMsg l s _ (by decide) h
   | recv k => exact invT_dataReceived l s k h
   | close => exact invT_close l s _ h
+  | sendFailed => exact h
 
 theorem invT_run (l r tl tr : Nat) (hl : 1 ≤ l) (htl : tl ≤ 1) (evs : List Ev) :
     InvT l ((startWith l r tl tr).run evs) :=
@@ -866,6 +868,7 @@ theorem invR_step (r n : Nat) (s : Sess) (e : Ev) (h : InvR r n s) : InvR r n (s
   | sendHb => exact invR_sendMsg r n s _ h
   | recv k => exact invR_dataReceived r n s k h
   | close => exact invR_close r n s _ h
+  | sendFailed => exact h
 
 theorem invR_run (l r tl n : Nat) (hr : 1 ≤ r) (evs : List Ev) : InvR r n ((startWith l r tl n).run evs) :=
   run_inv (P := InvR r n) (fun s e h => invR_step r n s e h) evs _ (invR_start l r tl n hr)
@@ -909,6 +912,7 @@ theorem no_app_writes (evs : List Ev) (s : Sess) (hno : ∀ e ∈ evs, e ≠ .se
         · exact h w hw
       | recv k => intro w hw; exact h w (by simpa [Sess.step] using hw)
       | close => intro w hw; exact h w (by simpa [Sess.step] using hw)
+      | sendFailed => exact h
 
 theorem recvIn_eq_false_of_lt (rs : List (Nat × RecvKind)) (a b : Nat) (h : ∀ x ∈ rs, x.1 < a) : recvIn rs a b = false := by
   rw [recvIn_false_iff]
@@ -1058,6 +1062,7 @@ theorem invQ_step (r : Nat) (s : Sess) (e : Ev) (h : InvQ r s) : InvQ r (s.step 
   | sendHb => exact invQ_sendMsg r s _ h
   | recv k => exact invQ_dataReceived r s k h
   | close => exact invQ_close r s h
+  | sendFailed => exact h
 
 theorem invQ_run (l r tl n : Nat) (hr : 1 ≤ r) (evs : List Ev) : InvQ r ((startWith l r tl n).run evs) :=
   run_inv (P := InvQ r) (fun s e h => invQ_step r s e h) evs _ (invQ_start l r tl n hr)
@@ -1098,6 +1103,7 @@ theorem forget_step (s : Sess) (e : Ev) : (s.step e).forgetKinds = s.forgetKinds
   | sendHb => rfl
   | recv k => rfl
   | close => exact forget_close s false
+  | sendFailed => rfl
 
 theorem forget_run (evs : List Ev) (s : Sess) : (s.run evs).forgetKinds = s.forgetKinds.run (evs.map Ev.eraseKind) := by
   induction evs generalizing s with
@@ -1178,6 +1184,7 @@ theorem step_tolR (s : Sess) (e : Ev) : (s.step e).rem.tol = s.rem.tol := by
   | sendHb => rfl
   | recv k => rfl
   | close => unfold Sess.step Sess.close; simp only []; split <;> rfl
+  | sendFailed => rfl
 
 theorem tol01_step (s : Sess) (e : Ev) (h0 : s.rem.tol = 0) : (s.step e).withTolR 1 = (s.withTolR 1).step e := by
   cases e with
@@ -1188,6 +1195,7 @@ theorem tol01_step (s : Sess) (e : Ev) (h0 : s.rem.tol = 0) : (s.step e).withTol
   | sendHb => rfl
   | recv k => rfl
   | close => exact tol01_close s false
+  | sendFailed => rfl
 
 theorem tol01_run (evs : List Ev) (s : Sess) (h0 : s.rem.tol = 0) : (s.run evs).withTolR 1 = (s.withTolR 1).run evs := by
   induction evs generalizing s with
@@ -1226,6 +1234,7 @@ theorem dropAppHb_step (s : Sess) (e : Ev) (he : e ≠ .sendHb) : (s.step e).dro
   | sendHb => exact absurd rfl he
   | recv k => rfl
   | close => exact dropAppHb_close s false
+  | sendFailed => rfl
 
 theorem dropAppHb_sendHb (s : Sess) : (s.step .sendHb).dropAppHb = s.dropAppHb := by
   simp [Sess.step, Sess.dropAppHb, Sess.sendMsg, Origin.isHb]
